@@ -138,6 +138,42 @@ func runConvText(src interface{}, tgt, route string) string {
 			}
 			return
 		}
+		if strings.HasPrefix(route, "unp-") {
+			kind, ok := unpForTarget[tgt]
+			if !ok {
+				out = "skip"
+				return
+			}
+			site := strings.TrimPrefix(route, "unp-")
+			ucfgc, err := ucfg.NewFrom(map[string]interface{}{"v": unpWrap(site, src)})
+			if err != nil {
+				return
+			}
+			sty, prep, rec := unpSite(kind, site)
+			target := reflect.New(sty)
+			prep(target, false, false)
+			if err := ucfgc.Unpack(target.Interface()); err != nil {
+				return
+			}
+			r := rec(target)
+			if r == nil || r.Calls != 1 {
+				out = "unpacker not called exactly once"
+				return
+			}
+			switch x := r.Got.(type) {
+			case bool:
+				out = "bool:" + strconv.FormatBool(x)
+			case string:
+				out = "string:" + x
+			case float64:
+				out = "float:" + canonFloat(x)
+			case int64:
+				out = "int:" + strconv.FormatInt(x, 10)
+			case uint64:
+				out = "int:" + strconv.FormatUint(x, 10)
+			}
+			return
+		}
 		st := reflect.New(reflect.StructOf([]reflect.StructField{{Name: "V", Type: convTextTypes[tgt], Tag: reflect.StructTag(`config:"` + key + `"`)}}))
 		if err := cfg.Unpack(st.Interface(), opts...); err != nil {
 			return
@@ -194,7 +230,7 @@ func convTextReplay(args []string) int {
 		}
 		rep.begin(raw)
 		rep.nontrivial(raw[:len(raw)*2/3])
-		for _, route := range []string{"field", "ref", "getter", "set-field", "set-getter"} {
+		for _, route := range []string{"field", "ref", "getter", "set-field", "set-getter", "unp-field", "unp-ptr", "unp-pre", "unp-elem", "unp-pelem", "unp-mapval"} {
 			if c.Kind == "text" && route == "ref" && c.Text.S == "" {
 				continue
 			}
